@@ -12,6 +12,8 @@ import WD.Driver.C18
 import WD.Driver.C20
 import WD.Driver.Pipe
 import WD.Driver.C19
+import WD.Driver.Win
+import WD.Driver.Mac
 open WD.Driver WD.Proto
 
 def handle (line : String) : String :=
@@ -24,6 +26,10 @@ def handle (line : String) : String :=
   | "pipe" :: ts => pipeLine ts
   | "pipespec" :: ts => pipeSpecLine ts
   | "evpath" :: ts => c19Line ts
+  | "winrun" :: ts => winRunLine ts
+  | "winemit" :: ts => winEmitLine ts
+  | "macrun" :: ts => macRunLine ts
+  | "macemit" :: ts => macEmitLine ts
   | "inodec" :: ts => c20Line "inodec" ts
   | "windec" :: ts => c20Line "windec" ts
   | "deb" :: ts => c18Line ts
